@@ -63,7 +63,7 @@ BadRuns(r, ref) ==
 
 (* ---- record walk.  `bad` keeps at most PerSig entries per distinct signature (so a frequent known cause cannot
         crowd out a rare one), `cnt` counts all of them ---- *)
-PerSig == 25
+CONSTANT PerSig
 VARIABLES l, bad, cnt, undef
 Obs == ndJsonDeserialize("obs.ndjson")
 Init == l = 1 /\ bad = <<>> /\ cnt = <<>> /\ undef = 0
